@@ -890,9 +890,10 @@ func derefsOf(v ssa.Value) []ssa.Instruction {
 	return out
 }
 
+// keyed by function + callee (independent of how the arguments are written)
 var c09NilExceptions = map[string]string{
-	"gov.(*GovCtrler).doPunish:deref:recv.proposalLedger.GetFinality(next(range(new([]ledger.LedgerKey))))#0": "keys were collected from the same committed tree in the loop just above (IterateReadAllFinalityItems) and nothing deletes proposals in between",
-	"evm.(*EVMCtrler).ExecuteTrx:deref:p0.AcctHandler.FindAccount(new(common.Address)[:], p0.Exec)":           "the created contract address was added to the access list by the EVM's create (Berlin rules are active from block 0), so StateDBWrapper.Finish has just created/marked that account in the same overlay",
+	"gov.(*GovCtrler).doPunish:deref:GetFinality":   "keys were collected from the same committed tree in the loop just above (IterateReadAllFinalityItems) and nothing deletes proposals in between",
+	"evm.(*EVMCtrler).ExecuteTrx:deref:FindAccount": "the created contract address was added to the access list by the EVM's create (Berlin rules are active from block 0), so StateDBWrapper.Finish has just created/marked that account in the same overlay",
 }
 
 func p4(w *World, r *Report, reach *Reach, scope []*ssa.Function) {
@@ -1014,6 +1015,7 @@ func p4(w *World, r *Report, reach *Reach, scope []*ssa.Function) {
 			for _, d := range w.derefsThroughPhis(val) {
 				blk := d.Block()
 				key := name + ":deref:" + w.Canon(val)
+				exKey := name + ":deref:" + callName(call.Common())
 				if w.phiEdgeSafe(val, errV, d) {
 					r.OK("P-4", key, "the result reaches this dereference only along the edge where the error is nil / the value is non-nil (other phi inputs are fresh objects)", site(w, d))
 					continue
@@ -1038,7 +1040,7 @@ func p4(w *World, r *Report, reach *Reach, scope []*ssa.Function) {
 							continue
 						}
 					case 1:
-						if why, ok := c09NilExceptions[key]; ok {
+						if why, ok := c09NilExceptions[exKey]; ok {
 							r.OK("P-4", key, "excepted: "+why, site(w, d))
 						} else {
 							r.Violate("P-4", key, "result dereferenced on the branch where the error is non-nil (callee returns nil with every error)", map[string]interface{}{"path": reach.Path(fn)}, site(w, call), site(w, d))
@@ -1046,7 +1048,7 @@ func p4(w *World, r *Report, reach *Reach, scope []*ssa.Function) {
 						continue
 					}
 				}
-				if why, ok := c09NilExceptions[key]; ok {
+				if why, ok := c09NilExceptions[exKey]; ok {
 					r.OK("P-4", key, "excepted: "+why, site(w, d))
 					continue
 				}
